@@ -365,8 +365,12 @@ def run(tier, seed, replay=None):
         id_fail = 0
         parts_pool = ['a', 'A', 'ab c', 'a.b', '1a', 'select', 'x`y', 'Ünï', 'primary_key', '', 'a$b', '$x', 'null$x', 'status$code', 'a\u00a0b', 'x\u3000y', '\ufeffz', 'q\u200bq',
                       'Date$1', 'true$1', 'x$null', 'a-b', 'a b', 'from', 'From', 'in', 'IS', 'a1_', '_', 'é']
+        def rnd_name(no_backtick=False):
+            # names over an alphabet of their own: quotes, dots, blanks and signs at any place (also first and last)
+            alpha = 'aB1_."\' -$`' if not no_backtick else 'aB1_."\' -$'
+            return ''.join(rng.choice(alpha) for _ in range(rng.randint(1, 4)))
         for _ in range(300 if tier == 'quick' else 3000):
-            parts = [rng.choice(parts_pool) for _ in range(rng.randint(1, 3))]
+            parts = [rng.choice(parts_pool) if rng.random() < 0.6 else rnd_name() for _ in range(rng.randint(1, 3))]
             if any(p == '' for p in parts):
                 continue
             evaluations += 1
@@ -395,12 +399,16 @@ def run(tier, seed, replay=None):
         for _ in range(400 if tier == 'quick' else 5000):
             parts = []
             for i in range(rng.randint(1, 3)):
-                c = rng.choice(contents)
+                c = rng.choice(contents) if rng.random() < 0.6 else rnd_name()
                 st = rng.choice(['bare', 'back', 'dq'])
+                if st == 'dq' and '"' in c:
+                    st = 'back'
                 if st == 'bare' and not re.fullmatch(r'[A-Za-z_][A-Za-z_0-9]*', c) or (st == 'bare' and c.lower() in ('select', 'from')):
                     st = 'back'
                 if st == 'back' and '`' in c:
                     st = 'dq'
+                if st == 'dq' and '"' in c:
+                    c, st = 'q1', 'bare'      # a name with both kinds of quote cannot be written in either spelling
                 parts.append((c, st))
             if len(parts) == 1 and parts[0][1] == 'dq':
                 continue            # a double-quoted word on its own is a string constant
